@@ -323,6 +323,11 @@ OPERANDS = [
     ('_arglikes', '*a, b=c'), ('_arglikes', 'a, **k'), ('_arglikes', ''), ('_withitems', '(a, b) as c'), ('_withitems', 'a, b'), ('_aliases', 'a as b, c.d as e'),
     ('_Assign_targets', 'a ='), ('_Assign_targets', 'a, b = c ='), ('_decorator_list', '@a.b'), ('_type_params', 'T: int, **P'), ('keyword', 'k=(a, b)'), ('withitem', '(a, b)'),
     ('_comprehensions', 'for a in b if c for d in e'), ('_comprehension_ifs', 'if (a, b)'),
+    # non-ASCII text before closing delimiters / separators (byte offsets differ from columns)
+    ('expr', "[a, 'ñ']"), ('expr', '{ñ, b}'), ('expr', "('é', ü)"), ('expr', "[\n 'ö',\n ñ]"), ('expr', "{'ключ': ñ, **é}"), ('expr', "f('ü', ñ=é)"), ('expr', 'ñ | é | ü'), ('expr', 'ä.ö.ü'),
+    ('pattern', "[ñ, 'é']"), ('pattern', "{'ü': ñ, **é}"), ('pattern', 'Ç(ñ, é=ü)'), ('pattern', "'ñ' | é"), ('pattern', 'ñ as é'), ('arguments', 'ñ, *é, ü'), ('arguments', 'ñ, é'),
+    ('_arglikes', 'ñ, *é, ü=ö'), ('_withitems', 'ñ as é, ü'), ('_aliases', 'ñ as é, ü.ö'), ('_type_params', 'Ñ, *É'), ('keyword', 'ñ=é'), ('stmt', "ñ = 'é'"), ('exec', "'é'; "), ('Tuple', "'é', ñ"),
+    ('_Assign_targets', 'ñ = é ='), ('_decorator_list', '@ñ\n@é(ü)'), ('_comprehension_ifs', "if 'é' if ñ"), ('MatchSequence', "ñ, 'é'"), ('Set', "{'é'}"), ('List', "['é']"),
 ]
 MODES = ['expr', 'pattern', 'Tuple', 'List', 'Set', 'stmt', 'stmts', 'exec', 'Expr', '_arglikes', '_arglike', 'arguments', 'arguments_lambda', '_withitems', 'withitem', '_aliases', 'alias',
          '_Import_names', '_ImportFrom_names', '_Assign_targets', '_decorator_list', '_type_params', 'type_param', 'Dict', 'MatchMapping', 'keyword', 'arg', '_comprehension_ifs',
@@ -450,7 +455,7 @@ def stage_matrix(ctx: Ctx, progs):
                 ra = fst.FST(copy_ast(base.a), mode)
                 d = cmp_ast(squash_multiline_strings(ra.a), squash_multiline_strings(r.a), positions=False, ctx=False)
                 if d:
-                    ctx.violation(f'fst-vs-ast|{type(base.a).__name__}->{mode}', 'coercing the formatted node and coercing its pure AST give different structures',
+                    ctx.violation(f'fst-vs-ast|{type(base.a).__name__}->{mode}|{d[0].split(": ")[-1][:40]}', 'coercing the formatted node and coercing its pure AST give different structures',
                                   {**rec, 'from_fst': r.src, 'from_ast': ra.src, 'diffs': d})
                     continue
             except AttributeError as e:
